@@ -4,7 +4,8 @@ everything else.
 
 C04's text speaks of sessions that end with an exception; C03's of a process that dies at any byte of an append
 session and of "any recovery history".  This file joins them in one transition system: any number of sessions, any
-fault plans, any interleaving, and at any moment any process may die (`Ev.kill`).  The kernel drops the dead
+fault plans, any interleaving, at any moment any process may die (`Ev.kill`), and a write of a live session may
+fail in the middle of a record (`Ev.tear`: I/O error, full device — the session then goes on with its cleanup).  The kernel drops the dead
 process's lock; if it died in the middle of a record the library keeps a torn tail (`deadTail`) which, by
 `Props.C03` (`crash_atomic`, `crash_stale_reopen`), no reader shows and the next writer cuts off when it opens the
 library for appending.
@@ -105,6 +106,9 @@ theorem ktick_file (k : KSys) (e : Ev) : k.s.file <+: (ktick k e).s.file := by
     split
     · exact List.prefix_refl _
     · exact List.prefix_refl _
+  | tear i =>
+    simp only [ktick]
+    split <;> exact List.prefix_refl _
 
 /-- the library only grows at its end, whatever happens: what is in it stays, in place, unaltered -/
 theorem file_prefix_k (evs : List Ev) : ∀ k, k.s.file <+: (runEvents k evs).s.file := by
@@ -149,7 +153,6 @@ theorem no_append_behind_dead_tail (sk : Skeleton) (hw : sk.wellBracketed = true
     (hp : (k.s.sess i).prog = .writeBegin :: t ∨ (k.s.sess i).prog = .writeEnd :: t) : k.deadTail = false := by
   subst hr
   have hk := kinv_reachable sk hw ho file plans evs
-  have hop := hk.opens i hi
   have hph := hk.sinv.phase i hi
   cases hd : (runEvents (kstartOf sk file plans) evs).deadTail with
   | false => rfl
@@ -157,13 +160,13 @@ theorem no_append_behind_dead_tail (sk : Skeleton) (hw : sk.wellBracketed = true
     exfalso
     rcases hp with hp | hp
     · obtain ⟨hc, hwr, _⟩ := phase_writeBegin hph hp
-      have hcl := hk.dead hd i hi hc hwr
-      rw [hp, hcl] at hop
-      simp [opensFirst] at hop
+      have := hk.dead hd i hi hc hwr
+      rw [hp] at this
+      simp [opensFirst] at this
     · obtain ⟨hc, hwr, _⟩ := phase_writeEnd hph hp
-      have hcl := hk.dead hd i hi hc hwr
-      rw [hp, hcl] at hop
-      simp [opensFirst] at hop
+      have := hk.dead hd i hi hc hwr
+      rw [hp] at this
+      simp [opensFirst] at this
 
 /-- in particular: while a record is half written by a live writer there is no dead tail in front of it -/
 theorem torn_excludes_dead_tail (sk : Skeleton) (hw : sk.wellBracketed = true) (ho : sk.opensBeforeWrite = true)
@@ -177,6 +180,11 @@ theorem torn_excludes_dead_tail (sk : Skeleton) (hw : sk.wellBracketed = true) (
 /-- a writer that opens the library cuts the dead tail -/
 theorem open_cuts_dead_tail (k : KSys) (i : Nat) (h : opensForAppend k.s i = true) :
     (ktick k (.run i)).deadTail = false := by
+  simp [ktick, h]
+
+/-- a failed write leaves its torn tail exactly when the failing writer will not write again before a reopen -/
+theorem tear_leaves_dead_tail (k : KSys) (i : Nat) (h : canTear k.s i = true) :
+    (ktick k (.tear i)).deadTail = true ∧ (ktick k (.tear i)).s = k.s := by
   simp [ktick, h]
 
 /-! ### non-vacuity: a hand-written skeleton of the shape the generator finds, a writer killed in the middle of a
@@ -206,5 +214,16 @@ example :
       ((List.replicate 8 (Ev.run 0)) ++ [.kill 0] ++ List.replicate 6 (Ev.run 1) ++ List.replicate 8 (Ev.run 2))
     k.s.file = [⟨[1], [10]⟩, ⟨[3], [30]⟩] ∧ k.deadTail = false ∧ (k.s.sess 1).seen = [[⟨[1], [10]⟩]] ∧
       (k.s.sess 2).prog = [] := by decide
+
+/-- writer 0 wrote its first record; the write of the second one fails part-way (the flush raises: its plan is
+`atFlush` with one complete write), the session still closes the file and releases the lock; writer 2 then opens, which
+cuts the tail, and appends directly behind the complete record. -/
+example :
+    let plans : List Plan := [⟨.writing, .atFlush, [⟨[1], [10]⟩, ⟨[2], [20]⟩], 1⟩, ⟨.writing, .none, [⟨[3], [30]⟩], 0⟩]
+    let k1 := runEvents (kstartOf exSk [] plans) (List.replicate 7 (Ev.run 0) ++ [.tear 0])
+    let k2 := runEvents k1 (List.replicate 2 (Ev.run 0) ++ List.replicate 8 (Ev.run 1))
+    k1.s.file = [⟨[1], [10]⟩] ∧ k1.deadTail = true ∧ (k1.s.sess 0).inCS = true ∧
+    k2.s.file = [⟨[1], [10]⟩, ⟨[3], [30]⟩] ∧ k2.deadTail = false ∧ (k2.s.sess 0).inCS = false ∧ (k2.s.sess 1).prog = [] := by
+  decide
 
 end Molli.Props.C04
